@@ -8,7 +8,7 @@
    (independent printer) -> the real parser -> all 18 fields; move lists of generated games -> final fields + history keys;
    acceptance / rejection of mutated move strings; the `d` display through the real main loop. *)
 From Coq Require Import NArith ZArith List Bool String.
-From JV Require Import Gen.Consts Model.Chess Model.SearchChess Model.Fen Model.Abs Proofs.FenProofs Proofs.UciProofs.
+From JV Require Import Gen.Consts Model.Chess Model.SearchChess Model.Fen Model.Abs Proofs.FenProofs Proofs.UciProofs Proofs.LegalInv Proofs.RulesUci.
 Import ListNotations.
 
 Theorem C05_accepts_only_legal : forall g tok m, parse_move g tok = Some m -> In m (legal_moves g) /\ to_uci m = tok.
@@ -24,6 +24,21 @@ Theorem C05_uci_injective : forall m1 m2,
   to_uci m1 = to_uci m2 -> mfrom m1 = mfrom m2 /\ mto m1 = mto m2 /\ promo_kind_n (mpromo m1) = promo_kind_n (mpromo m2).
 Proof. exact uci_injective. Qed.
 
+(* at the level of the rules, for every position satisfying the invariant (through C01): no two legal moves of a position share a
+   string; a token is accepted exactly when it is the string of a legal move, the accepted move being that move; the accepted
+   moves are exactly the legal moves of the rules *)
+Theorem C05_legal_moves_have_distinct_strings : forall g x y, legal_inv g -> In x (legal_moves g) -> In y (legal_moves g) ->
+  to_uci x = to_uci y -> x = y.
+Proof. exact uci_distinct. Qed.
+Theorem C05_acceptance_is_exact : forall g tok m, legal_inv g -> (parse_move g tok = Some m <-> In m (legal_moves g) /\ to_uci m = tok).
+Proof. exact parse_move_exact. Qed.
+Theorem C05_accepted_move_is_legal_under_the_rules : forall g tok m, legal_inv g -> parse_move g tok = Some m ->
+  In (umove m) (ChessSpec.legal_moves (abs g)).
+Proof. exact accepted_token_is_rules_legal. Qed.
+Theorem C05_every_legal_move_of_the_rules_is_accepted : forall g sm, legal_inv g -> In sm (ChessSpec.legal_moves (abs g)) ->
+  exists m, umove m = sm /\ parse_move g (to_uci m) = Some m.
+Proof. exact rules_legal_has_accepted_token. Qed.
+
 Theorem C05_history_recorded : forall args g rep,
   parse_position args = FOk (g, rep) -> exists base ps, rep = hash base :: map hash ps /\ g = last ps base.
 Proof. exact parse_position_history. Qed.
@@ -36,4 +51,8 @@ Proof. exact play_moves_history. Qed.
 Print Assumptions C05_accepts_only_legal.
 Print Assumptions C05_accepts_every_legal.
 Print Assumptions C05_uci_injective.
+Print Assumptions C05_legal_moves_have_distinct_strings.
+Print Assumptions C05_acceptance_is_exact.
+Print Assumptions C05_accepted_move_is_legal_under_the_rules.
+Print Assumptions C05_every_legal_move_of_the_rules_is_accepted.
 Print Assumptions C05_history_recorded.
